@@ -43,6 +43,13 @@ CHECKS = {
  "C03": dict(cat="exploration", tech="configuration x workload property-based testing through the real client library and the real server over loopback QUIC: round-trip oracle with probe warm-up, in-band end marker and liveness probe",
      text="Generated client configurations (codec x compression algorithm/level x batching size/interval x 1-3 subscribers) and workloads (item counts around the batch size, payload sizes from 0 to just under the frame limit) are published through selium::Publisher and must be yielded by every warmed-up selium::Subscriber exactly, in order, once; finish() must return Ok and everything accepted before it must arrive.",
      note="Real multi-threaded runtime and UDP: the oracle is timing-independent; 'did not arrive' is only a violation when a later probe on the same path did arrive. Batch sizes above 100000 and batches over the frame limit are outside the generated domain.", ref="§5 C03"),
+
+ "C04": dict(cat="exploration", tech="concurrent-call property-based testing of the real Requestor (streams x clones x calls) through the real server against a scripted wire-level replier (permuted, duplicated, late and missing replies); reply = f(request) oracle",
+     text="Every call that returns Ok must carry f(its own request) whatever the reply order and however ids collide across streams; never/late answered calls must fail with the timeout error no earlier than the timeout and a late reply must not satisfy a later call; answered calls on long-timeout streams must succeed.",
+     note="Real runtime and UDP; on 400 ms-timeout streams a prompt reply may lose the race under load, so both outcomes are accepted there. Lateness is event-triggered, not a real-time distribution.", ref="§5 C04"),
+ "C12": dict(cat="fault_enumeration", tech="generated outage scripts (cut point x failing attempts x failure mode x repetition) against a scripted fake server, exact reconnect-attempt accounting for the real client library",
+     text="For all four stream kinds the connection is cut at generated points; each outage has a scripted number of failing reconnect attempts (dropped connection or retryable refusal) or a non-retryable answer. The fake server counts registrations: k+1 on recovery with an identical registration frame and working traffic afterwards, exactly max_attempts then too-many-retries, immediate report of an unrecoverable answer; more outages than max_attempts distinguishes per-outage from lifetime budgets.",
+     note="The server side is scripted (the real server's part in recovery is C08/C10); outages are connection closes, not silent packet loss.", ref="§5 C12"),
 }
 PENDING = {}
 ALL = ["C%02d" % i for i in range(1, 18)]
